@@ -15,10 +15,12 @@ RULE = ('every BSD syscall / Mach trap decoder (all BSC_* and MSC_* names, all o
         'arity or a numeric parameter at another position; (3) an enum-named parameter is injective over its domain; '
         '(4) the call part is unchanged when only the END record, the thread id, the timestamps or unrelated nested '
         'records change, when a stray END precedes the window, when an earlier unterminated START of the same call exists, and when another thread listed in the '
-        'thread map enters the same call meanwhile; '
+        'thread map enters the same call meanwhile, and when the window is requested as a dump through PyKdebugParser.traces under class / subclass '
+        'filter sets that select the call (path-taking calls); '
         '(5) sentinel: with one START word set to a value that is special somewhere (AT_FDCWD 0xfffffffe, -1, -2, 0, 1, INT_MAX, 2^31, 2^32, ...) '
         'every numeric parameter still shows its own word (a word that fits 32 bits may be shown as a signed int) and no other parameter moves; '
-        '(6) rendering a trace twice gives the same text. Non-trivial: four pairwise distinct non-zero START words; distinct by (decoder, START tuple).')
+        '(6) rendering a trace twice gives the same text; after that every list / dict attribute of the trace is edited in place (the receiver owns them), so a decoder '
+        'that hands one list to several traces is seen by the next decoding. Non-trivial: four pairwise distinct non-zero START words; distinct by (decoder, START tuple).')
 ASSUMPTIONS = ['the call part is the text up to the parenthesis that closes name(',
                'parameters that are not decimal/hex literals (names, quoted paths, flag lists) are checked by C08/C11',
                'flag-list parameters may appear or disappear with another flag word (open mode shown only with O_CREAT): '
@@ -56,7 +58,7 @@ def distinct_words(name, seed):
     return None
 
 
-def render(name, a, e, lookups=(), tid=0x33, ts0=1000, nested=(), stray_end=False, stale_start=None, other_thread=None):
+def render(name, a, e, lookups=(), tid=0x33, ts0=1000, nested=(), stray_end=False, stale_start=None, other_thread=None, tables=None):
     evs = [EV.E(tid, name, 2, args=[e[0], e[3], e[2], e[1]])] if stray_end else []
     if stale_start is not None:      # an earlier START of the same call that never got its END (lost, or the call never returns)
         evs.append(EV.E(tid, name, 1, args=stale_start))
@@ -70,6 +72,8 @@ def render(name, a, e, lookups=(), tid=0x33, ts0=1000, nested=(), stray_end=Fals
     # with another thread in play the pairing object is built on a thread map that already knows both threads (a second
     # request on one PyKdebugParser, or a dump whose thread map lists them)
     parser = EV.new_traces_parser() if other_thread is None else EV.new_traces_parser(threads_pids={tid: 10, 0x55: 10, 0x56: 11}, pids_names={10: 'a', 11: 'b'})
+    if tables is not None:       # the process tables already know some processes (a thread map, earlier records)
+        parser = EV.new_traces_parser(threads_pids=dict(tables[0]), pids_names=dict(tables[1]))
     out = [t for t in parser.feed_generator(EV.realize(evs, ts0=ts0)) if t.ktraces[0].tid == tid and
            t.ktraces[0].eventid == EV.eid(name)]
     if len(out) != 1 or out[0].ktraces[0].func_qualifier != 1 or out[0].ktraces[-1].func_qualifier != 2:
@@ -82,7 +86,29 @@ def text_of(name, trace):
     first, second = str(trace), str(trace)
     if first != second:
         raise Violation(f'render-not-repeatable:{name}', f'{name}: rendered as {first!r}, then the same trace object as {second!r}')
+    scribble(trace)
     return first
+
+
+def scribble(trace):
+    """the receiver of a trace may do what it likes with the lists and dicts the trace carries (sort them, strip a flag
+    it does not care about, append a note): every trace is edited in place after its text was taken, so that a decoder
+    which hands the SAME list to several traces (a cache, a precomputed table) shows up in the next decoding"""
+    import dataclasses
+    if not dataclasses.is_dataclass(trace):
+        return
+    for f in dataclasses.fields(trace):
+        if f.name == 'ktraces':
+            continue
+        v = getattr(trace, f.name, None)
+        try:
+            if isinstance(v, list):
+                del v[:]
+                v.append('edited_by_the_receiver')
+            elif isinstance(v, (dict, set)):
+                v.clear()
+        except Exception:  # noqa: an immutable or odd container cannot be edited, which is fine
+            pass
 
 
 # the only decoder that (legitimately) shows the low 32 bits of a START word: the seconds of a mach_timespec
@@ -166,6 +192,26 @@ def prop_decoder(ctx, case):
         if sc6 is None or (sc6[0], sc6[1]) != (cname, params):
             raise Violation(f'other-thread-start-used:{name}', f'{name}: while another thread (both listed in the thread map) is inside the same call with START {other[0]}, '
                                                               f'this call renders {txt6!r} instead of {txt!r}')
+    # (4d) the same window as a dump through PyKdebugParser.traces under filter sets that select this call: the call part
+    # does not depend on which OTHER classes the caller asked for
+    if nlook and name.startswith('BSC_') and '"' in txt and seed % 2 == 0:
+        from pykdebugparser.pykdebugparser import PyKdebugParser
+        from ..io_util import BudgetReader
+        from .. import kmodel
+        evs = [EV.E(0x33, name, 1, args=a)]
+        for i, p_ in enumerate(lookups):
+            evs += EV.lookup_events(0x33, 50 + i, p_)
+        evs.append(EV.E(0x33, name, 2, args=e))
+        blob = kmodel.v2_file([(0x33, 9, b'p')], 0, [kmodel.ev_record((1001 + 7 * k, t, (EV.eid(c) & ~3) | q, d)) for k, (t, c, q, d) in enumerate(evs)])
+        sub = EV.eid(name) >> 16
+        for fc, fs in (([], []), ([4], []), ([], [sub]), ([1], [sub]), ([1, 0x25], [sub, 0x0701]), ([4, 7], []), ([3, 4], []))[seed // 2 % 2::2]:
+            pk = PyKdebugParser()
+            pk.filter_class, pk.filter_subclass = list(fc), list(fs)
+            got = [str(t) for t in guard(lambda: list(pk.traces(BudgetReader(blob)))) if t.ktraces[0].eventid == EV.eid(name)]
+            sc7 = TP.split_call(got[0]) if len(got) == 1 else None
+            if sc7 is None or (sc7[0], sc7[1]) != (cname, params):
+                raise Violation(f'call-part-depends-on-filters:{name}', f'{name}: requested with class filter {fc} and subclass filter {fs} the call renders {got}, '
+                                                                        f'the pairing layer alone renders {txt!r}')
     # (1) position sensitivity
     for k in range(4):
         b = list(a)
@@ -258,6 +304,12 @@ def run(ctx):
               'long_window': [300, 1000, 260, 520][(i + r) % 4] if (i + 7 * r + ctx.seed) % 53 == 0 else 0}
              for r in range(ctx.n(20, 500)) for i, n in enumerate(names())]
     ctx.run_enum('decoder', cases, prop_decoder, exhaustive_label='every BSC_/MSC_ decoder name (tuples sampled)')
+    # one call per run interrupted tens of thousands of times (and once per size constant found in the package source)
+    from .. import dictionary as DI0
+    sizes = sorted({70000} | {c + c // 16 + 8 for c in DI0.size_constants() if 1000 < c <= 300000})
+    if ctx.shard == 0:
+        huge = [{'name': ['BSC_read', 'BSC_open', 'BSC_write'][k % 3], 'seed': base + 77 + k, 'lookups': k % 2, 'long_window': n} for k, n in enumerate(sizes)]
+        ctx.run_enum('decoder', huge, prop_decoder, exhaustive_label='one call holding 70000 nested records (+ one per size constant of the source)')
     ns = len(SENTINELS)
     sent = [{'name': n, 'seed': base + 17 * i + r, 'slot': slot, 'value': SENTINELS[r] if r < 2 else SENTINELS[2 + (i + slot + r + ctx.seed) % (ns - 2)]}
             for r in range(ctx.n(3, 2 * ns)) for i, n in enumerate(names()) for slot in range(4)]
